@@ -571,8 +571,15 @@ class ExecMixin(object):
                         for a_ in n_.args:
                             if isinstance(a_, (ast.Name, ast.Attribute)):
                                 muts.add(ast.unparse(a_))
+        st._none_names = []
         for nm in sorted(names):
             if nm in st.env:
+                if isinstance(st.env[nm], VNone) and nm not in self.ghost_names:
+                    # None before the loop, assigned in it: the kind of the other values is found by the discovery run
+                    # (the variable becomes Optional[kind]); keeping it None would make the branches that test it dead
+                    del st.env[nm]
+                    st._none_names.append(nm)
+                    continue
                 st.env[nm] = self.fresh_like(st.env[nm], st, nm)
             # names first bound inside the loop stay unbound after havoc
         for m in sorted(muts):
@@ -732,6 +739,9 @@ class ExecMixin(object):
                 for nm, v in kinds.items():
                     if nm not in d.env:
                         d.env[nm] = v
+                for nm in getattr(h, "_none_names", []):
+                    if nm not in d.env:
+                        d.env[nm] = VNone()      # None before the loop: the discovery run starts from that value
                 try:
                     if is_for:
                         ev_ = elem(k)
@@ -744,7 +754,7 @@ class ExecMixin(object):
                 new = False
                 for s2 in outs:
                     for nm in missing:
-                        if nm in s2.env and nm not in kinds:
+                        if nm in s2.env and nm not in kinds and not isinstance(s2.env[nm], VNone):
                             try:
                                 v_ = s2.env[nm]
                                 if isinstance(v_, VRef):
@@ -852,6 +862,12 @@ class ExecMixin(object):
         # loop-carried locals first bound inside the loop: discover their kind by a throw-away run of the body and
         # bind them to arbitrary values of that kind (UnboundLocalError itself is not modelled)
         self.discover_loop_locals(stmt, h, is_for, elem, k if is_for else None)
+        for nm in getattr(h, "_none_names", []):
+            v = h.env.get(nm)
+            if v is None or isinstance(v, VNone):
+                h.env[nm] = VNone()
+            elif not isinstance(v, VOpt):
+                h.env[nm] = VOpt(z3.Bool(fresh_name(nm + "_isnone")), v)
         for e in invs:
             self.in_contract = True
             try:
